@@ -230,6 +230,10 @@ def main(argv=None) -> int:
 
 def _guarded_main() -> int:
     """An exception of the harness itself must never look like a verdict: exit 2, not 1."""
+    if os.environ.get("MDPSIM_DEBUG_DUMP_S"):
+        import faulthandler
+
+        faulthandler.dump_traceback_later(float(os.environ["MDPSIM_DEBUG_DUMP_S"]), repeat=True)
     try:
         return main()
     except SystemExit:
